@@ -253,7 +253,7 @@ def corr_readout(rec, drv, what=('dispatch', 'dcf', 'prices', 'special'), opj=No
             if list(cols.values()).count(col) > 1:
                 continue  # label collision of contrived names: not comparable per (asset,node)
             for t in range(T):
-                if not feq(md.get((a, n, t), Fraction(0)), Fraction(float(colv[t])), tol):
+                if not np.isfinite(float(colv[t])) or not feq(md.get((a, n, t), Fraction(0)), Fraction(float(colv[t])), tol):
                     dis.append({'component': 'readout.dispatch', 'detail': 'dispatch %s@%s step %d: %s (model) vs %s (impl)' % (
                         a, n, t, float(md.get((a, n, t), 0)), float(colv[t]))})
                     break
@@ -262,7 +262,9 @@ def corr_readout(rec, drv, what=('dispatch', 'dcf', 'prices', 'special'), opj=No
         for a in portf.assets:
             colv = out['DCF'][a.name].values
             for t in range(T):
-                if not feq(md.get((a.name, t), Fraction(0)), Fraction(float(colv[t])), tol):
+                # (an undefined cell is a disagreement with the model's table; what it means for the property - the SUM of the table -
+                #  is for the value-accounting oracle to say)
+                if not np.isfinite(float(colv[t])) or not feq(md.get((a.name, t), Fraction(0)), Fraction(float(colv[t])), tol):
                     dis.append({'component': 'readout.dcf', 'detail': 'DCF %s step %d: %s (model) vs %s (impl)' % (
                         a.name, t, float(md.get((a.name, t), 0)), float(colv[t]))})
                     break
@@ -326,7 +328,7 @@ def orc_value_accounting(rec, tag='mono', offsets=None):
     viol = []
     dcf = out['DCF']
     total = float(np.nansum(dcf.values))
-    scale = max(1.0, abs(res.value), float(np.abs(dcf.values).sum()))
+    scale = max(1.0, abs(res.value), float(np.nansum(np.abs(np.asarray(dcf.values, dtype=float)))))   # (finite cells only: a NaN cell must not silence the oracle)
     tol = 1e-6 * scale
     if abs(total - res.value) > tol:
         viol.append({'oracle': 'value_accounting', 'detail': '%s: reported value %.8g but DCF table sums to %.8g' % (tag, res.value, total),
